@@ -606,6 +606,8 @@ class RegionLifter:
             r = self.prog.resolve(F.module, node.id)
             if isinstance(r, tuple) and r[0] == "const":
                 return self.ev(r[1], {}, F)
+            if isinstance(r, tuple) and r[0] == "ext":
+                return r[1]                  # external name (a dtype, ...): opaque
             raise Unsupported(f"name {node.id}")
         if isinstance(node, ast.UnaryOp):
             v = self.ev(node.operand, env, F)
